@@ -49,11 +49,23 @@ class Prop:
     # kind of key, a lost entry is a violation
     tolerate_listener_key_loss = False
 
+    _last_arc = None
+
     def monitor(self, line, out):
-        """trace monitor on one implementation answer: a well-formed write sequence must read back as written.
-        Returns None or (why, signature)."""
-        if not line.startswith("arc ") or " | " not in out:
+        """trace monitor on one implementation answer: a well-formed write sequence must read back as written -
+        right after it was written (`arc`: a fresh context) and when it is loaded into a session that has loaded other
+        archives and was reset in between (`sload`).  Returns None or (why, signature)."""
+        if line.startswith("classes"):
+            self._last_arc = None
             return None
+        if line == "sload":
+            if self._last_arc is None or not (out == "ok" or out.startswith("ok ") or out.startswith("err")):
+                return None
+            line, out = self._last_arc, "- | " + out
+        elif not line.startswith("arc ") or " | " not in out:
+            return None
+        else:
+            self._last_arc = line
         written = archgen.parse_items(line.split(" ")[4:])
         if not archgen.well_formed(written):
             return None
@@ -340,6 +352,82 @@ def lkey_stage(ctx, exe, reg):
     return {"tables": len(cases), "known_case_fired": bad}
 
 
+# --------------------------------------------------------------------------------------------
+# several loads in one script context, with ScriptMaster::Reset() and other interning in between
+
+def gen_session(rng):
+    """`sess`, then 2..4 rounds of: an archive (constant-string values, named variables, variable lists among other
+    things) is written and loaded into the session; the session is reset and some texts are interned (texts of the archives,
+    in another order, and new ones).  With probability 1/2 the first constant string the next archive loads is the last one
+    the previous archive loaded."""
+    lines = ["sess"]
+    cases = []
+    nxt = [300000]
+
+    def fresh():
+        nxt[0] += 1
+        return nxt[0]
+
+    def text():
+        return bytes(rng.choice(archgen.TEXT) for _ in range(rng.randint(1, 8)))
+    pool = [text() for _ in range(6)]
+    last = None
+    for rnd in range(rng.randint(2, 4)):
+        items = []
+        if last is not None and rng.random() < 0.5:
+            first = last
+        else:
+            first = rng.choice(pool)
+        r = rng.random()
+        if r < 0.4:
+            items.append(("v", fresh(), ("k", first)))
+        elif r < 0.8:
+            items.append(("nv", fresh(), first, ("i", rng.getrandbits(16))))
+        else:
+            items.append(("vl", 0, 0, 0, [], [(fresh(), first, ("s", b"x"))]))
+        for _ in range(rng.randint(0, 5)):
+            r = rng.random()
+            if r < 0.3:
+                items.append(("v", fresh(), ("k", rng.choice(pool))))
+            elif r < 0.55:
+                items.append(("nv", fresh(), rng.choice(pool + [text()]), rng.choice([("i", 1), ("k", rng.choice(pool)), ("s", b"")])))
+            elif r < 0.75:
+                names = list(dict.fromkeys(rng.choice(pool + [text()]) for _ in range(rng.randint(0, 5))))
+                items.append(("vl", 0, 0, 0, [], [(fresh(), nm, rng.choice([("i", 2), ("k", rng.choice(pool))])) for nm in names]))
+            else:
+                items.append(archgen.gen_prim(rng))
+        last = rng.choice(pool + [text()])
+        items.append(("v", fresh(), ("k", last)) if rng.random() < 0.5 else ("nv", fresh(), last, ("n",)))
+        cases.append(((1, b"MFUS", b"sess"), items))
+        lines += [None, "sload"]
+        k = rng.randint(0, 4)
+        lines.append(" ".join(["sreset"] + [rng.choice(pool + [text()]).hex() for _ in range(k)]))
+    return lines, cases
+
+
+def session_stage(ctx, exe, reg):
+    d = archgen.ADiff(ctx, Prop(), exe, AREA)
+    d.base_timeout = 60
+    rng = ctx.rng("session")
+    T = b"health"
+    fixed_lines = ["sess", None, "sload", "sreset " + b"armor".hex() + " " + b"ammo".hex(), None, "sload", "sreset", None, "sload"]
+    fixed_cases = [((1, b"MFUS", b"s1"), [("v", 300001, ("k", b"armor")), ("nv", 300002, T, ("i", 100))]),
+                   ((1, b"MFUS", b"s2"), [("nv", 300003, T, ("i", 55)), ("v", 300004, ("k", b"ammo"))]),
+                   ((1, b"MFUS", b"s3"), [("vl", 0, 0, 0, [], [(300005, b"ammo", ("i", 1)), (300006, T, ("k", T))])])]
+    sessions = [(fixed_lines, fixed_cases)] + [gen_session(rng) for _ in range(60 if ctx.tier == "quick" else 2000)]
+    bad = 0
+    for i in range(0, len(sessions), 40):
+        batch = []
+        for j, (lines, cases) in enumerate(sessions[i:i + 40]):
+            fixed = iter(archgen.canon(exe, reg, cases))
+            batch.append(("session:%d" % (i + j), [reg] + [archgen.arc_line(*next(fixed)) if l is None else l for l in lines]))
+        bad += d.run_batch(batch)
+    ctx.oblige("several loads into one script context with ScriptMaster::Reset() and other interning in between: every load "
+               "reads back what was written, real code == model (%d sessions)" % len(sessions), bad == 0,
+               "%d failing sessions" % bad, reported=True)
+    return {"sessions": len(sessions)}
+
+
 def check(ctx):
     prop = Prop()
     d0 = archgen.translate(ctx)
@@ -393,6 +481,7 @@ def check(ctx):
                bad == 0, "%d differing cases" % bad, reported=True)
     tstats = tables_stage(ctx, exe, reg)
     kstats = lkey_stage(ctx, exe, reg)
+    sstats = session_stage(ctx, exe, reg)
     s_items = archgen.gen_case(ctx.rng("sample"), 6, nobj=2)
     ctx.samples = [archgen.arc_line(*archgen.canon(exe, reg, [((1, b"MFUS", b"Morfuse Archive"), s_items)])[0])]
     cov = {
@@ -402,7 +491,7 @@ def check(ctx):
                 "(real Listener, two scripted subclasses whose Archive() runs nested calls incl. nested ArchiveObject and self "
                 "pointers), plain and safe pointers before/after/inside their targets, null pointers, position-only objects, "
                 "4% pointers to never-registered objects; distinct by SHA-1 of the lines",
-        "listener_tables": tstats, "listener_key_tables": kstats,
+        "listener_tables": tstats, "listener_key_tables": kstats, "sessions": sstats,
         "item_histogram": hist, "well_formed_sequences": nwf, "max_registered_objects": maxobj,
         "model_answer_kinds": d.outkinds, "exhaustive": False,
     }
